@@ -151,7 +151,9 @@ func (c *c11) emitBuild(p protocol.Protocol, cfg, label, info string, br buildRe
 	if br.err == nil && br.pan == "" {
 		desc["request"] = string(br.req)
 		view = "(Some " + world.ReqView(br.req, originOK) + ")"
-		parser := operationparser.New(p)
+		// a node with a server clock (3000): every window used by the generator contains it, so a builder-made
+		// request must pass; the validator sees the EFFECTIVE window (default anchorUntil applied by the parser)
+		parser := operationparser.New(p, operationparser.WithAnchorTimeValidator(clockTV{now: 3000}))
 		var op *operation.Operation
 		var perr error
 		ppan := guard(func() { op, perr = parser.Parse("did:sidetree", br.req) })
@@ -184,6 +186,21 @@ func (c *c11) emitBuild(p protocol.Protocol, cfg, label, info string, br buildRe
 	c.r.Count("build:"+strings.SplitN(label, ":", 2)[0], outcome)
 	c.r.Count("build-config", cfg+":"+outcome)
 	c.r.Add(c.gb, emit.App("Build_bcase", world.ProtoGallina(p), info, view, parsed, emit.Bool(br.pan != "")), desc, label+"|"+cfg+"|"+info[:min(len(info), 4000)], true)
+}
+
+type clockTV struct{ now int64 }
+
+func (c clockTV) Validate(from, until int64) error {
+	if from == 0 && until == 0 {
+		return nil
+	}
+	if c.now < from {
+		return operationparser.ErrOperationEarly
+	}
+	if c.now > until {
+		return operationparser.ErrOperationExpired
+	}
+	return nil
 }
 
 func min(a, b int) int {
@@ -335,8 +352,9 @@ func (c *c11) builders(kp *world.KeyPool, tier string) {
 		nk = 2 * int(world.NumKeyTypes)
 	}
 	id := int64(1)
-	for ki := 0; ki < nk; ki++ {
-		k := kp.Keys[ki]
+	keysUnderTest := append([]*world.Key{}, kp.Keys[:nk]...)
+	keysUnderTest = append(keysUnderTest, world.ShortCoordinateKey()) // secp256k1 key with a leading zero byte in a coordinate
+	for ki, k := range keysUnderTest {
 		next, next2 := kp.Keys[(ki+7)%len(kp.Keys)], kp.Keys[(ki+11)%len(kp.Keys)]
 		for _, code := range []uint{world.SHA256, world.SHA512} {
 			suffix := "EiAsuffix-of-" + fmt.Sprint(ki)
